@@ -99,6 +99,28 @@ pub fn c07(tier: Tier, _seed: u64) -> Prop {
     for p in prefixes {
         units.push(prefix_unit(p, 8, 2));
     }
+    // ---- 78 / 7C-7F with EVERY register/address byte x every second word in the bit-instruction and MOV pages
+    units.push(Unit::new(
+        "prefix-7x-allrr",
+        256,
+        "first words 78rr, 7Crr, 7Drr, 7Err, 7Frr for all 256 rr x every second word whose high byte is in 60-67, 70-77 (bit instructions) or 6A/6B (MOV d:24) = 5 x 256 x 4608 word pairs x 2 tails x 2 register files",
+        move |ctx, chunk| {
+            let rr = chunk as u16;
+            for hi in [0x78u16, 0x7c, 0x7d, 0x7e, 0x7f] {
+                for page in [0x60u16, 0x61, 0x62, 0x63, 0x64, 0x65, 0x66, 0x67, 0x70, 0x71, 0x72, 0x73, 0x74, 0x75, 0x76, 0x77, 0x6a, 0x6b] {
+                    for lo in 0..256u16 {
+                        for t in 0..2 {
+                            let mut words: Vec<u16> = vec![(hi << 8) | rr, (page << 8) | lo];
+                            for x in TAILS[t].iter() {
+                                words.push(*x);
+                            }
+                            run_words(ctx, &words, &[0x00]);
+                        }
+                    }
+                }
+            }
+        },
+    ));
     // ---- third words
     let mut p3: Vec<Vec<u16>> = vec![
         vec![0x0100, 0x7810], vec![0x0100, 0x7890], vec![0x0100, 0x7800], vec![0x0140, 0x7810], vec![0x0140, 0x7890],
